@@ -30,6 +30,13 @@ def run(tier, replay=None):
         mism = ck.coq_eval_cases(lines, hdr, "N * tree * obs", "mismatches", tag="merge")
         slines = open(os.path.join(ck.work, "cases_status.txt")).read().splitlines()
         smism = ck.coq_eval_cases(slines, hdr, "N * val * nat * grpc_code * core", "status_mismatches", shards=2, tag="status")
+        hhdr = "From Coq Require Import NArith.\nFrom Errors Require Import Model Heap Run.\nOpen Scope string_scope."
+        hlines = open(os.path.join(ck.work, "cases_heap.txt")).read().splitlines()
+        hmism = ck.coq_eval_cases(hlines, hhdr, "N * hstate * list op * list vobs", "heap_mismatches", tag="heap")
+        clines = open(os.path.join(ck.work, "cases_client.txt")).read().splitlines()
+        cmism = ck.coq_eval_cases(clines, hhdr, "N * nat * bool * bool * bool", "client_mismatches", shards=2, tag="client")
+        if hmism is not None and cmism is not None and smism is not None:
+            smism = smism + [10000 + x for x in hmism] + [20000 + x for x in cmism]
     if not ck.coq_ok:
         if not ck.violations:
             ck.unproved("the Errors development no longer checks: " + ck.coq_error,
@@ -39,7 +46,8 @@ def run(tier, replay=None):
             first = res["cases"][mism[0]] if mism else {"status_row": smism[0]}
             ck.unproved("correspondence Errors.merge_tree / status tables vs pkg/error.go, http/error.go, grpc/error.go broke on %d merge case(s) and %d status row(s); the property's own laws held on every case explored" % (len(mism), len(smism)),
                         {"broken": "correspondence obs_of_val (merge_tree t) = observed", "first_disagreeing_case": first,
-                         "mismatching_case_indexes": mism[:50], "mismatching_status_rows": smism[:50]})
+                         "mismatching_case_indexes": mism[:50], "mismatching_status_rows_or_heap(10000+)_or_client(20000+)": smism[:50],
+                         "first_disagreeing_history": (res.get("extra", {}).get("heap_cases") or [None])[[x - 10000 for x in smism if 10000 <= x < 20000][0]] if [x for x in smism if 10000 <= x < 20000] else None})
     cov = {"evaluations": res["evaluations"], "distinct_nontrivial": res["distinct_nontrivial"], "rule": res["rule"],
            "samples": res["samples"], "distribution": res["distribution"],
            "model_mismatches": (len(mism or []) + len(smism or [])) if ck.coq_ok else None,
